@@ -157,6 +157,15 @@ func cmdCheck(args []string) {
 		fmt.Fprintln(os.Stderr, "no such property in props.json:", pid)
 		os.Exit(2)
 	}
+	// obligations that belong to one property only (listed under "_owned": pattern -> owner) are not counted elsewhere
+	if owned, ok := props["_owned"]; ok {
+		for _, ent := range owned.Exclude {
+			parts := strings.SplitN(ent, " => ", 2)
+			if len(parts) == 2 && parts[1] != pid {
+				ps.Exclude = append(ps.Exclude, parts[0])
+			}
+		}
+	}
 	eng, err := loadEngine(*repo)
 	if err != nil {
 		// the tree does not load: nothing can be decided; report as a violation of every contract-level obligation
